@@ -121,10 +121,16 @@ def le16 (b : List UInt8) : Outcome Nat := do
 
 def le64 (b : List UInt8) : Nat := b.foldr (fun x acc => x.toNat + 256 * acc) 0
 
+/-- `FooterSize()` of the four decompressors (compared with the implementation's values on every run). -/
+def gzFooterSize : Nat := 51
+def legacyFooterSize : Nat := 47
+def extFooterSize : Nat := 46
+def zstdFooterSize : Nat := 40
+
 /-- `GzipDecompressor.ParseFooter` (estargz/gzip.go). `hdr` = result of `gzip.NewReader`:
 `none` = header rejected, `some extra` = the FEXTRA payload (possibly empty). -/
 def gzipFooter (len : Nat) (hdr : Option (List UInt8)) : Outcome Footer :=
-  if len ≠ 51 then err else
+  if len ≠ gzFooterSize then err else
   match hdr with
   | none => err
   | some extra =>
@@ -146,7 +152,7 @@ def gzipFooter (len : Nat) (hdr : Option (List UInt8)) : Outcome Footer :=
 
 /-- `LegacyGzipDecompressor.ParseFooter`. -/
 def legacyFooter (len : Nat) (hdr : Option (List UInt8)) : Outcome Footer :=
-  if len ≠ 47 then err else
+  if len ≠ legacyFooterSize then err else
   match hdr with
   | none => err
   | some extra =>
@@ -160,7 +166,7 @@ def legacyFooter (len : Nat) (hdr : Option (List UInt8)) : Outcome Footer :=
 
 /-- `externaltoc.GzipDecompressor.ParseFooter`. -/
 def extFooter (len : Nat) (hdr : Option (List UInt8)) : Outcome Footer :=
-  if len ≠ 46 then err else
+  if len ≠ extFooterSize then err else
   match hdr with
   | none => err
   | some extra =>
@@ -177,7 +183,7 @@ def extFooter (len : Nat) (hdr : Option (List UInt8)) : Outcome Footer :=
 
 /-- `zstdchunked.Decompressor.ParseFooter` on the raw bytes. -/
 def zstdFooter (p : List UInt8) : Outcome Footer :=
-  if p.length ≠ 40 then err else do
+  if p.length ≠ zstdFooterSize then err else do
   let a ← sliceB p 0 8
   let b ← sliceB p 8 16
   let m ← sliceB p 32 40
